@@ -74,6 +74,7 @@ type EntryResult struct {
 
 type workItem struct {
 	prefix []int32
+	model  map[string]uint64
 }
 
 // Explore runs the entry function over all feasible paths (DFS by re-execution).
@@ -89,6 +90,8 @@ func Explore(sh *Shared, entry *ssa.Function, entryName string, lim Limits) *Ent
 	started := 0
 	cexCount := map[string]int{}
 	sampleSeen := 0
+	realigns := 0
+	_ = realigns
 
 	worker := func(id int) {
 		sol, err := smt.New(lim.Solver, lim.QueryMs)
@@ -132,17 +135,29 @@ func Explore(sh *Shared, entry *ssa.Function, entryName string, lim Limits) *Ent
 			wantSample := lim.Samples > 0 && (started <= 2 || h.Sum32()%17 == 0)
 			mu.Unlock()
 
-			pr := runPathSafe(ex, entry, entryName, it.prefix, wantSample)
+			pr := runPathSafe(ex, entry, entryName, it.prefix, it.model, wantSample)
 			npaths++
-			if npaths%2000 == 0 {
+			if pr.Outcome == "realign" {
+				// solver stack reuse failed its consistency check: redo the path on a clean solver
+				sol.Reset()
+				ex.prevValid = false
+				realigns++
+				pr = runPathSafe(ex, entry, entryName, it.prefix, it.model, wantSample)
+			}
+			if npaths%5000 == 0 {
 				// keep solver memory bounded
 				sol.Reset()
+				ex.prevValid = false
 			}
 
 			mu.Lock()
 			active--
-			for _, s := range pr.Siblings {
-				frontier = append(frontier, workItem{prefix: s})
+			for i, s := range pr.Siblings {
+				var m map[string]uint64
+				if i < len(pr.SibModels) {
+					m = pr.SibModels[i]
+				}
+				frontier = append(frontier, workItem{prefix: s, model: m})
 			}
 			res.Decisions += int64(len(pr.Decisions))
 			res.Unforced += int64(pr.Unforced)
@@ -259,14 +274,15 @@ func Explore(sh *Shared, entry *ssa.Function, entryName string, lim Limits) *Ent
 	return res
 }
 
-func runPathSafe(ex *Exec, entry *ssa.Function, entryName string, prefix []int32, wantSample bool) (pr PathResult) {
+func runPathSafe(ex *Exec, entry *ssa.Function, entryName string, prefix []int32, model map[string]uint64, wantSample bool) (pr PathResult) {
 	defer func() {
 		if r := recover(); r != nil {
 			pr = PathResult{Outcome: "engine", Msg: fmt.Sprintf("interpreter crash: %v%s\n%s", r, ex.where(), trimStack(debug.Stack())), Decisions: ex.decisions, Siblings: ex.siblings}
 			ex.sol.Reset()
+			ex.prevValid = false
 		}
 	}()
-	return ex.RunPath(entry, entryName, prefix, wantSample)
+	return ex.RunPath(entry, entryName, prefix, model, wantSample)
 }
 
 func trimStack(b []byte) string {
